@@ -544,6 +544,9 @@ theorem cur_exec (hi : Inv c s) (h : Current c s) (op : Op)
   | guardStart n p => exact cur_guardStart hi h n p
   | guardStop n => exact cur_stopClear h _
   | disconnect => exact cur_disconnect h
+  | exitWith w => exact cur_disconnect h
+  | connect =>
+    exact h.congr rfl rfl (fun o ho => ⟨ho, fun id d r p => (Wanted.congr rfl rfl rfl _ _ _ _ _).2⟩)
 
 theorem cur_step (hi : Inv c s) (h : Current c s) (op : Op) (hcl : Clean c s op) :
     Current c (step c s op).1 := by
